@@ -565,6 +565,48 @@ TRANSPARENT_CALLS = {
 }
 
 
+_canon_cache = {}
+
+
+def canon(e):
+    """canonical form for value comparison: ref / deref / cast / transparent calls removed
+    everywhere, call-site block indices kept (two reads of one call result are equal,
+    two calls are not)"""
+    if not isinstance(e, tuple) or not e:
+        return e
+    r = _canon_cache.get(e)
+    if r is not None:
+        return r
+    k = e[0]
+    if k in ('ref', 'deref'):
+        r = canon(e[1])
+    elif k == 'cast':
+        r = canon(e[1])
+    elif k == 'call':
+        if e[1] in TRANSPARENT_CALLS and e[2]:
+            r = canon(e[2][0])
+        else:
+            r = ('call', e[1], tuple(canon(a) for a in e[2]), e[3])
+    elif k == 'field':
+        r = ('field', canon(e[1]), e[2], e[3])
+    elif k == 'variant':
+        r = ('variant', canon(e[1]), e[2])
+    elif k == 'bin':
+        r = ('bin', e[1], canon(e[2]), canon(e[3]))
+    elif k == 'un':
+        r = ('un', e[1], canon(e[2]))
+    elif k == 'discr':
+        r = ('discr', canon(e[1]), e[2])
+    elif k == 'aggr':
+        r = ('aggr', e[1], e[2], tuple(canon(a) for a in e[3]))
+    elif k == 'index':
+        r = ('index', canon(e[1]))
+    else:
+        r = e
+    _canon_cache[e] = r
+    return r
+
+
 def field_chain(e):
     """[(owner, field)] from root to leaf of a chain of field/deref/ref/variant projections"""
     chain = []
@@ -871,11 +913,12 @@ class Switch:
           'int'     subject = expr, labels succ -> value or 'else'
     """
 
-    def __init__(self, kind, subject, labels, bi):
+    def __init__(self, kind, subject, labels, bi, adt=None):
         self.kind = kind
         self.subject = subject
         self.labels = labels
         self.bi = bi
+        self.adt = adt
 
     def succs_where(self, pred):
         return [s for s, l in self.labels.items() if pred(l)]
@@ -937,8 +980,8 @@ def resolve_switch(facts, fn, bi):
                 for nm in names:
                     out.update(m.get(nm, (nm,)))
                 labels2[b] = frozenset(out)
-            return Switch('variant', inner, labels2, bi)
-        return Switch('variant', subj, labels, bi)
+            return Switch('variant', inner, labels2, bi, adt=norm(e[2]))
+        return Switch('variant', subj, labels, bi, adt=norm(e[2]))
     lab = {}
     for v, b in ts:
         lab.setdefault(b, v)
@@ -1008,3 +1051,95 @@ def compress_path(fn, blocks):
         if not out or out[-1] != l:
             out.append(l)
     return out
+
+
+# --------------------------------------------------------------------------- event scanning
+
+
+def scan(fn, init, on_stmt=None, on_term=None, on_edge=None, cap=64, track_ret=True):
+    """Path-sensitive event scan of one function.
+
+    State = (user_state, ret_class) where ret_class tracks what was last stored into the
+    return place: 'Ok' / 'Err' / 'Some' / 'None' / 'Ready' / 'Pending' / callee name / '?'.
+    on_stmt(us, bi, si, place, rv) -> us
+    on_term(us, bi, term) -> us | {succ: us}      (applied when leaving the block)
+    on_edge(us, bi, succ) -> us | None            (None = edge infeasible under us)
+    Returns (exits, ins, parent): exits = [(ret_block, user_state, ret_class)].
+    """
+    def step(bi, st):
+        us, rc = st
+        b = fn.blocks[bi]
+        for si, s in enumerate(b['s']):
+            pl, rv = s[0], s[1]
+            if track_ret and pl[0] == 0:
+                if len(pl) == 1:
+                    rc = _ret_class_rv(rv, fn)
+                # partial writes into the return place keep the class
+            if on_stmt:
+                us = on_stmt(us, bi, si, pl, rv)
+        t = b['t']
+        if track_ret and t['k'] == 'call' and t['d'][0] == 0 and len(t['d']) == 1:
+            rc = _ret_class_call(t)
+        res = on_term(us, bi, t) if on_term else us
+        out = []
+        for s in fn.succ[bi]:
+            ns = res[s] if isinstance(res, dict) and s in res else (res if not isinstance(res, dict) else us)
+            if on_edge:
+                ns = on_edge(ns, bi, s)
+                if ns is None:
+                    continue
+            out.append((s, (ns, rc)))
+        return out
+
+    ins, parent = forward(fn, (init, '?'), step, cap=cap)
+    exits = []
+    for bi in fn.returns():
+        for (us, rc) in ins.get(bi, ()):
+            # apply statements of the return block itself
+            b = fn.blocks[bi]
+            rc2 = rc
+            us2 = us
+            for si, s in enumerate(b['s']):
+                if track_ret and s[0][0] == 0 and len(s[0]) == 1:
+                    rc2 = _ret_class_rv(s[1], fn)
+                if on_stmt:
+                    us2 = on_stmt(us2, bi, si, s[0], s[1])
+            exits.append((bi, us2, rc2, (us, rc)))
+    return exits, ins, parent
+
+
+def _ret_class_rv(rv, fn):
+    if rv[0] == 'aggr' and rv[1] == 'adt':
+        v = rv[2].split('::')[-1]
+        if v in ('Err', 'Ready', 'Some') and rv[3]:
+            l = op_local(rv[3][0])
+            if l is not None:
+                e = fn.expr_of_local(l)
+                if e[0] == 'call':
+                    return '%s:%s' % (v, e[1].split('::')[-1])
+                if e[0] == 'aggr' and e[1] == 'adt':
+                    return '%s:%s' % (v, e[2].split('::')[-1])
+        return v
+    if rv[0] == 'use':
+        op = rv[1]
+        l = op_local(op)
+        if l is not None:
+            e = fn.expr_of_local(l)
+            if e[0] == 'aggr' and e[1] == 'adt':
+                return e[2].split('::')[-1]
+            if e[0] == 'call':
+                return 'call:' + e[1]
+        c = op_const(op)
+        if c is not None:
+            return 'const:' + str(c[1])
+    return '?'
+
+
+def _ret_class_call(t):
+    if t['fn'].endswith('::from_residual'):
+        return 'Err'
+    return 'call:' + t['fn']
+
+
+def is_err_class(rc):
+    return rc == 'Err'
